@@ -136,14 +136,49 @@ where
         Ok(z2) if z2 == zk => {}
         _ => return rep.fail(ck, "zkpok-json-roundtrip", "the proof does not survive serde_json".into(), cj(json!(null))),
     }
-    let bsig = match try_blind_sign::<CS>(key, &bases, &zk, &revealed, &c_issuer, t_issuer.as_ref(), cpk, &hidden, &revealed_idx) {
+    // every object of the flow crosses a wire in practice: in every second case the proof, the issuer's key and bases,
+    // the blind signature and the holder's commitment go through serde_json (and the signature through its octets)
+    // between the steps, and the flow continues with the decoded copies
+    let wire = c.seed % 2 == 1;
+    macro_rules! through_json {
+        ($ty:ty, $v:expr, $what:expr) => {
+            if wire {
+                match serde_json::to_string($v).ok().and_then(|t| serde_json::from_str::<$ty>(&t).ok()) {
+                    Some(x) => Some(x),
+                    None => return rep.fail(ck, &format!("json-roundtrip-mid-flow:{}", $what), format!("{} does not survive serde_json in the middle of the flow", $what), cj(json!(null))),
+                }
+            } else {
+                None
+            }
+        };
+    }
+    let zk_w = through_json!(ZKPoK<CL03<CS>>, &zk, "issuance proof");
+    let bases_w = through_json!(Bases, &bases, "bases");
+    let pk_w = through_json!(CL03PublicKey, &key.pk, "issuer public key");
+    let sk_w = through_json!(CL03SecretKey, &key.sk, "issuer secret key");
+    let key_w = ClKey { suite: key.suite, pk: pk_w.unwrap_or_else(|| key.pk.clone()), sk: sk_w.unwrap_or_else(|| key.sk.clone()), id: key.id.clone(), origin: key.origin };
+    let bsig0 = match try_blind_sign::<CS>(&key_w, bases_w.as_ref().unwrap_or(&bases), zk_w.as_ref().unwrap_or(&zk), &revealed, &c_issuer, t_issuer.as_ref(), cpk, &hidden, &revealed_idx) {
         Some(s) => s,
-        None => return rep.fail(ck, "blind-sign-refused-honest-proof", format!("blind_sign refused an honest proof for hidden set {:?} of {}", hidden, n), cj(json!(null))),
+        None => return rep.fail(ck, "blind-sign-refused-honest-proof", format!("blind_sign refused an honest proof for hidden set {:?} of {} (objects through JSON between the steps: {})", hidden, n, wire), cj(json!(null))),
     };
-    let sig = bsig.unblind_sign(&commitment);
+    let bsig_w = through_json!(BlindSignature<CL03<CS>>, &bsig0, "blind signature");
+    let bsig = bsig_w.unwrap_or(bsig0);
+    let commitment_w = through_json!(Commitment<CL03<CS>>, &commitment, "holder's commitment");
+    let sig = bsig.unblind_sign(commitment_w.as_ref().unwrap_or(&commitment));
+    let sig = if wire {
+        match catch(|| Signature::<CL03<CS>>::from_bytes(&sig.to_bytes())) {
+            Ok(s2) => s2,
+            Err(e) => return rep.fail(ck, "signature-bytes-roundtrip-mid-flow", format!("from_bytes(to_bytes(sig)) panics: {}", e), cj(json!(null))),
+        }
+    } else {
+        sig
+    };
     rep.eval(ck, 1);
     if !sig.verify_multiattr(pk, &bases, &msgs) {
-        return rep.fail(ck, "unblinded-signature-rejected", format!("hidden set {:?} of {}", hidden, n), cj(json!(null)));
+        return rep.fail(ck, "unblinded-signature-rejected", format!("hidden set {:?} of {} (objects through JSON / octets between the steps: {})", hidden, n, wire), cj(json!(null)));
+    }
+    if wire {
+        rep.class("flow-with-objects-through-json-between-steps");
     }
     // re-issuing after changing a revealed attribute
     if let Some(&ri) = revealed_idx.first() {
@@ -455,7 +490,7 @@ pub fn run(ctx: &Ctx, rep: &Report) -> Meta {
     }
     Meta {
         rule: "issuer key from a pool, n attributes, EVERY non-empty hidden set for n = 1..3 (quick) / 1..5 (thorough) plus generated (n <= 4/5, hidden set, attribute classes), with and without a trusted-party commitment (commitment key over its own modulus); \
-               positive: verify_proof true (the issuer is given the commitment value only), proof survives JSON, blind_sign returns, the unblinded signature verifies on the full vector, re-issuing with a changed revealed attribute verifies on the new vector and not on the old; \
+               positive: verify_proof true (the issuer is given the commitment value only), proof survives JSON, in every second case every object of the flow (proof, issuer key, bases, blind signature, holder's commitment; the signature through its octets) is serialised and decoded between the steps, blind_sign returns, the unblinded signature verifies on the full vector, re-issuing with a changed revealed attribute verifies on the new vector and not on the old; \
                negative: commitment to other attributes / C*b, single-field edits of the key material (issuer N + 2, b squared, the base of every hidden position squared; with a trusted commitment its N + 2, h and the g_i of hidden positions squared), another hidden set of the same size, hidden-position lists reaching beyond the attribute count (each refusal followed by a re-verification of the honest proof on the same thread), other bases, other issuer key, wrong trusted commitment: verify_proof false AND blind_sign refuses; \
                every integer leaf of the serialised proof perturbed by +1, -1, := 0, := sibling, one high bit flipped, +2^k for k in {128, 160, 256, 300} (16-24 sampled perturbations per proof in quick, all in thorough's fixed list): verify_proof false; every composite node of the serialised proof (sub-proof, array, array element) replaced by the node at the same path of a second honest proof for other hidden values (same key, bases, positions), for every second case: verify_proof false; \
                n = 6 and 8 with first / last / all / alternating hidden sets; every attribute count 9..=24 (quick) / 9..=48 (thorough) with two or three hidden positions including the last; volume: 1400 (quick) / 10000 (thorough) honest one-attribute issuance proofs each verified, half of them with a trusted-party commitment; issuers with 0..3 more bases than attributes; every second case with two or more hidden attributes gives them all the same value; a proof without the trusted-party sub-proof presented to an issuer that requires one, a sub-proof checked against another commitment key; non-trivial = hidden set != {0} (the crate's only tested configuration); evaluations = verifier / issuer decisions"
